@@ -33,7 +33,7 @@ class Person:
     def __str__(self):
         return 'Person<%s>' % self.name
 
-def hit(i, flag, val, name, person, data):
+def hit(i, flag, val, name, person, data, cnt):
     x = i
     return x
 
@@ -41,7 +41,8 @@ def tmain(tid, n, out):
     for i in range(n):
         row = ROWS[i]
         tick(i)
-        out.append(hit(i, row[0], row[1], row[2], Person(row[2], i), {'k': row[1], 'l': [i, i + 1]}))
+        out.append(hit(i, row[0], row[1], row[2], Person(row[2], i), {'k': row[1], 'l': [i, i + 1]},
+                       iter(range(i * 10, i * 10 + 40))))
 '''
 TP_LINE = None
 
